@@ -26,6 +26,7 @@ class Recorder(object):
         self.evaluations = 0
         self.distinct = set()
         self.failures = []
+        Recorder.current = self       # (so that a run stopped by the time limit can still report what it had found)
         self.samples = []
         self.known_lines = []
         self.groups = {}
